@@ -109,7 +109,11 @@ def run(ctx):
                                    lambda: save_replay(PROP, f"hang-l{k}", sub, meta={"args": args, "env": env}))
                 continue
             if r.rc != 0:
-                raise ToolError(f"generated string-merge link failed: {r}")
+                # valid input: a failing or panicking link is data (stranded buckets surface as a
+                # panic right after the scope), not a tool error. Validate whatever was traced too.
+                ctx.verdict.report(f"valid-link-{r.klass()}", f"valid string-merge link failed: rc={r.rc} ...{r.err[:400]}",
+                                   lambda: save_replay(PROP, f"failed-l{k}", sub, meta={"args": args, "env": env, "stderr": r.err[:3000]}))
+                continue
             secs = split_sections(tr)
             if not secs:
                 raise ToolError("no string-merge events in trace (hooks missing?)")
